@@ -68,7 +68,10 @@ def canon(v, depth=0):
     if isinstance(v, (llist.PersistentList, ISeq)):
         return ["list", [canon(x, depth + 1) for x in v]]
     if isinstance(v, (list, tuple)):
-        return ["pyseq", [canon(x, depth + 1) for x in v]]
+        return ["pyseq", type(v).__name__, [canon(x, depth + 1) for x in v]]
+    import collections as _c
+    if isinstance(v, _c.deque) or type(v).__name__ == "PersistentQueue":
+        return ["queue", type(v).__name__, [canon(x, depth + 1) for x in v]]
     if isinstance(v, rt.Var):
         return ["var", str(v)]
     if isinstance(v, rt.Namespace):
@@ -232,7 +235,7 @@ def serve():
         if pid == 0:
             code = 0
             try:
-                faulthandler.dump_traceback_later(req.get("timeout", 60), exit=True)
+                faulthandler.dump_traceback_later(req.get("timeout", 300), exit=True)
                 rep = bundled_snapshot(req) if req.get("bundled") else incarnation(req)
                 _write_report(req, rep)
             except BaseException:  # noqa: BLE001
